@@ -401,6 +401,10 @@ func (c *Ctx) components(v Val) [][2]string {
 			return [][2]string{{v.Srt, v.S}}
 		}
 		return [][2]string{{c.sortOf(v.T), v.S}}
+	case KMapView:
+		if v.Map == nil {
+			return [][2]string{{v.Srt, v.S}}
+		}
 	case KSlice:
 		return [][2]string{{"Int", v.Arr}, {"Int", v.Off}, {"Int", v.Len}, {"Int", v.Cap}}
 	case KArrPtr:
@@ -418,7 +422,7 @@ func (c *Ctx) components(v Val) [][2]string {
 // rebuild constructs a value shaped like v from a flat list of terms.
 func rebuild(v Val, terms []string) (Val, []string) {
 	switch v.K {
-	case KScalar, KUnit, KArray:
+	case KScalar, KUnit, KArray, KMapView:
 		w := v
 		w.S = terms[0]
 		return w, terms[1:]
